@@ -1,3 +1,2 @@
 package main
 
-func modeC09(in, out, stats string) { panic("not built yet") }
